@@ -153,7 +153,16 @@ class KernelFacts:
             # the last iteration written out after a loop that stops one short: a restructuring this template does not follow
             top = [st_ for st_ in cf.body if isinstance(st_, CAssign) and isinstance(st_.target, ast.Subscript) and unparse(st_.target.value) == arr]
             return bool(top)
-        self.ob('V', f[0] == vf and f[1] == '%s[%s]' % (Gk, f[7]) and f[2] == [nu] + vargs_extra and f[3] == '0' and f[4] == Ek and f[5],
+        okV = f[0] == vf and f[1] == '%s[%s]' % (Gk, f[7]) and f[2] == [nu] + vargs_extra and f[3] == '0' and f[4] == Ek and f[5]
+        if not okV and peeled(Vn):
+            # an iteration written out after the loop: decide by the content of every cell of V instead (sa.cellflow)
+            okV = self.cell_content_is(Vn, '%s(%s@0%s)' % (vf, Gk, ''.join(',' + a for a in [nu] + vargs_extra)), Ek)
+            if okV:
+                f = f[:4] + (Ek,) + f[5:]
+            elif okV is False:
+                self.ob('V', False, self.cell_detail, f[6])
+                return
+        self.ob('V', okV,
                 '%s[%s] = %s(%s, %s) for %s in [%s, %s)' % (Vn, f[7], f[0], f[1], ', '.join(f[2]), f[7], f[3], f[4]) +
                 (' (loop with a peeled iteration: not recognised)' if f[4] != Ek and peeled(Vn) else ''), f[6])
         f = found_v[VIn]
@@ -293,7 +302,14 @@ class KernelFacts:
             oki = tr(b.value.left.slice).equals(index_poly(lv))
         except AlgebraError:
             oki = False
-        peel_r = unparse(lp.cond.comparators[0]) != Ek and any(isinstance(st_, CAssign) and isinstance(st_.target, ast.Subscript) and unparse(st_.target.value) == R for st_ in (inner if D > 1 else cf.body))
+        if D == 1 and not (okr and oki):
+            cc = self.cell_content_is(R, 'phi@0/dt', Ek)
+            if cc:
+                okr = oki = True
+            elif cc is False:
+                self.ob('rhs', False, self.cell_detail, b.line)
+                return
+        peel_r = not (okr and oki) and unparse(lp.cond.comparators[0]) != Ek and any(isinstance(st_, CAssign) and isinstance(st_.target, ast.Subscript) and unparse(st_.target.value) == R for st_ in (inner if D > 1 else cf.body))
         self.ob('rhs', okr and oki, '%s[%s] = phi[%s]/%s for %s in [0,%s); C-order index expected %s' % (R, unparse(b.target.slice), unparse(b.value.left.slice), unparse(b.value.right), lv,
                 unparse(lp.cond.comparators[0]), index_poly(lv).canon()) + (' (loop with a peeled iteration: not recognised)' if peel_r else ''), b.line)
         roles[R] = 'r'
@@ -429,6 +445,61 @@ class KernelFacts:
         reads = phi_reads(cf, D)
         self.ob('linearity', len(reads) == 1, 'phi is read at lines %s (only the right-hand side r = phi/dt may depend on it: coefficients are independent of the density)' % reads)
         return roles
+
+    def cell_content_is(self, array, expr_text, extent):
+        """every cell of `array` (top-level loops and stores of the kernel) holds expr_text (reads written A@0 relative to the cell) when the
+        kernel reaches its sweep: content of the cell classes by guarded store dataflow, whatever the grouping into loops"""
+        from .cellflow import Flow
+        from .stencil import Update
+
+        class View:
+            pass
+        keep = []
+        for st in self.cf.body:
+            if isinstance(st, CDecl):
+                keep.append(st)
+            elif isinstance(st, CAssign) and (isinstance(st.target, ast.Name) or (isinstance(st.target, ast.Subscript) and unparse(st.target.value) == array)):
+                if isinstance(st.target, ast.Name) and isinstance(st.value, ast.Call) and unparse(st.value.func) == 'malloc':
+                    continue
+                keep.append(st)
+            elif isinstance(st, CFor) and all(isinstance(b, CAssign) and isinstance(b.target, ast.Subscript) for b in st.body) and \
+                    any(unparse(b.target.value) == array for b in st.body):
+                nf = CFor(st.init, st.cond, st.step, [b for b in st.body if unparse(b.target.value) == array], st.line)
+                keep.append(nf)
+        v = View()
+        v.body, v.line, v.name, v.params, v.rel = [k_ for k_ in keep if not (isinstance(k_, CDecl) and (k_.pointer or k_.array))], self.cf.line, self.cf.name, self.cf.params, self.cf.rel
+
+        def walk():
+            for st in v.body:
+                yield st
+                if isinstance(st, CFor):
+                    yield from st.body
+        v.walk = walk
+        v.param_names = self.cf.param_names
+        try:
+            fl = Flow(v, extent=extent)
+            if array not in fl.arrays():
+                return None
+            import re as _re
+            enc = _re.sub(r'(\w+)@(-?\d+)', lambda m_: '%s__AT__%s' % (m_.group(1), m_.group(2).replace('-', 'm')), expr_text)
+
+            def name_hook(n):
+                if '__AT__' in n:
+                    a, d_ = n.split('__AT__')
+                    return Rat.atom('%s@%d' % (a, -int(d_[1:]) if d_.startswith('m') else int(d_)))
+                return None
+            want = Translator({}, name_hook=name_hook).tr(ast.parse(enc, mode='eval').body)
+            for cls in fl.classes(array):
+                table, keys = fl.content(array, cls)
+                if keys:
+                    return None
+                if not table[frozenset()].equals(want):
+                    self.cell_detail = 'cell %s of %s holds %s (reads relative to the cell), expected %s' % (
+                        {'lo': '%d' % cls[1], 'hi': '%s-%d' % (extent, cls[1] + 1), 'mid': 'j'}[cls[0]], array, table[frozenset()].canon()[:80], want.canon()[:60])
+                    return False
+            return True
+        except AlgebraError:
+            return None
 
     def _path_to(self, pred):
         def rec(stmts, path):
